@@ -11,7 +11,10 @@
 //   pos    : 0 | 1 (accept_positionals()) | a<k> (accept_positionals(k)), optionally followed by ":<hist>".  hist is a
 //            string over e|g|f: parse() calls made on the SAME parser object before the first usage() and again between
 //            the usage() calls: e = empty argument vector, g = a vector giving every option/toggle declared so far and
-//            positionals, f = a vector that fails (exception caught).  The usage text must not depend on them.
+//            positionals, f = a vector that fails (exception caught), c = the parser is move-CONSTRUCTED into a new object
+//            (the old one destroyed), a = it is move-ASSIGNED into another, already used parser object.  The usage text
+//            must not depend on any of them.
+//   groups : an entry "name:descr:L" is a group created LATE (together with the late options)
 //   an opt whose kind letter is upper case (O|M|T) is declared LATE: after a first usage() call has already been made
 //   observation  "T <hex text>"  when a fresh stringstream, a stringstream holding `prior`, an ostream over a
 //   non-seekable streambuf (tellp() == -1) and std::cout (rdbuf swapped, non-seekable) all received the same text,
@@ -33,6 +36,7 @@
 
 #include <algorithm>
 #include <cstdlib>
+#include <memory>
 #include <new>
 
 namespace arena
@@ -131,7 +135,8 @@ static std::string run_usage(const std::vector<std::string>& w)
     bool order_ok = true;
     try
     {
-        no::parser p(unhex(w[1]), unhex(w[2]), unhex(w[3]));
+        // the parser lives on the heap so that it can be moved into another object (hist letters c and a)
+        auto pp = std::make_unique<no::parser>(unhex(w[1]), unhex(w[2]), unhex(w[3]));
         std::string posfield = w[4], hist;
         {
             auto colon = posfield.find(':');
@@ -144,26 +149,35 @@ static std::string run_usage(const std::vector<std::string>& w)
         std::size_t pos_amount = 0;
         if (posfield == "1")
         {
-            p.accept_positionals();
+            pp->accept_positionals();
             pos_amount = 2;
         }
         else if (posfield.size() > 1 && posfield[0] == 'a')
         {
             pos_amount = std::stoul(posfield.substr(1));
-            p.accept_positionals(pos_amount);
+            pp->accept_positionals(pos_amount);
         }
         else if (posfield != "0")
             return "BADCASE";
-        p.positional_metavar(unhex(w[5]));
+        pp->positional_metavar(unhex(w[5]));
+        // groups[0] is the default group, groups[i] the i-th listed named group; a group marked ":L" is created
+        // late (together with the late options, i.e. after parse()/move/usage() have already happened)
         std::vector<no::group*> groups;
-        groups.push_back(&p.group());
+        groups.push_back(&pp->group());
+        std::vector<std::vector<std::string>> gdefs;
         if (w[7] != ".")
             for (auto& g : split_on(w[7], ','))
             {
                 auto f = split_on(g, ':');
-                if (f.size() != 2) return "BADCASE";
-                groups.push_back(&p.group(unhex(f[0]), unhex(f[1])));
+                if (f.size() != 2 && !(f.size() == 3 && f[2] == "L")) return "BADCASE";
+                gdefs.push_back(f);
+                groups.push_back(nullptr);
             }
+        auto create_groups = [&](bool late) {
+            for (std::size_t i = 0; i < gdefs.size(); i++)
+                if ((gdefs[i].size() == 3) == late) groups[i + 1] = &pp->group(unhex(gdefs[i][0]), unhex(gdefs[i][1]));
+        };
+        create_groups(false);
         std::vector<std::pair<int, no::toggle*>> longs;          // (requested rank, object)
         std::vector<std::pair<char, std::string>> declared;      // (kind, name) of what is declared so far
         bool bad = false, any_late = false;
@@ -177,7 +191,7 @@ static std::string run_usage(const std::vector<std::string>& w)
                 if (is_late != late) continue;
                 const char kind = static_cast<char>(is_late ? f[0][0] - 'A' + 'a' : f[0][0]);
                 std::size_t gi = std::stoul(f[1]);
-                if (gi >= groups.size()) { bad = true; return; }
+                if (gi >= groups.size() || !groups[gi]) { bad = true; return; }
                 no::group& g = *groups[gi];
                 const std::string name = unhex(f[2]), descr = unhex(f[4]), env = unhex(f[5]), metavar = unhex(f[6]);
                 const bool flag = f[8] == "1";
@@ -242,20 +256,42 @@ static std::string run_usage(const std::vector<std::string>& w)
                 }
                 else if (h == 'f')
                     args.push_back("--no-such-option-was-declared-xyz");
+                else if (h == 'c')
+                {
+                    // move-construct the parser into a new object and destroy the old one; the std::map nodes (groups,
+                    // options) travel with it, so the group and toggle references stay valid
+                    auto q = std::make_unique<no::parser>(std::move(*pp));
+                    pp = std::move(q);
+                    continue;
+                }
+                else if (h == 'a')
+                {
+                    // move-assign into another, already used parser object
+                    auto q = std::make_unique<no::parser>("other", "another parser", "others");
+                    q->group("zz-other", "x").toggle("other-toggle");
+                    q->group("aa-other", "y").option("other-option");
+                    q->accept_positionals(7);
+                    *q = std::move(*pp);
+                    pp = std::move(q);
+                    continue;
+                }
+                else if (h != 'e')
+                    continue;
                 std::vector<const char*> argv;
                 for (auto& a : args) argv.push_back(a.c_str());
-                try { auto parsed = p.parse(static_cast<int>(argv.size()), argv.data()); (void)parsed; }
+                try { auto parsed = pp->parse(static_cast<int>(argv.size()), argv.data()); (void)parsed; }
                 catch (const std::exception&) {}
             }
         };
         declare(false);
         if (bad) return "BADCASE";
         do_parses();
-        if (any_late)
+        if (any_late || std::any_of(gdefs.begin(), gdefs.end(), [](const auto& f) { return f.size() == 3; }))
         {
             // a usage() call made before the declaration is complete must not be remembered
             std::stringstream early;
-            p.usage(early);
+            pp->usage(early);
+            create_groups(true);
             declare(true);
             if (bad) return "BADCASE";
         }
@@ -267,20 +303,20 @@ static std::string run_usage(const std::vector<std::string>& w)
 
         {
             std::stringstream fresh;
-            p.usage(fresh);
+            pp->usage(fresh);
             a = fresh.str();
         }
         do_parses();
         {
             std::stringstream again;
-            p.usage(again);
+            pp->usage(again);
             if (again.str() != a) return "USAGE-CHANGED " + hex(a) + " " + hex(again.str());
         }
         do_parses();
         {
             std::stringstream s;
             s << prior;
-            p.usage(s);
+            pp->usage(s);
             b = s.str();
             if (b.compare(0, prior.size(), prior) != 0) return "PRIOR-CONTENT-DAMAGED";
             b = b.substr(prior.size());
@@ -290,14 +326,14 @@ static std::string run_usage(const std::vector<std::string>& w)
             sink_buf sb;
             std::ostream os(&sb);
             if (os.tellp() != std::ostream::pos_type(-1)) return "DRIVER-SINK-IS-SEEKABLE";
-            p.usage(os);
+            pp->usage(os);
             c = sb.data;
         }
         {
             sink_buf sb;
             std::cout.flush();
             auto* old = std::cout.rdbuf(&sb);
-            try { p.usage(); }
+            try { pp->usage(); }
             catch (...) { std::cout.rdbuf(old); throw; }
             std::cout.flush();
             std::cout.rdbuf(old);
